@@ -3,7 +3,7 @@ exactly once.  Correspondence of Net/PluginChain.v with the REAL Plugins.load / 
 HttpProxyPlugin driven through harness/sim.py with plugin classes generated from action tables, and the property
 itself evaluated on the implementation's call log, connect log and socket bytes (independent of the Coq model:
 it only uses what each generated hook was given and what it returned)."""
-import itertools
+import itertools, json
 import common as C
 from props import plugins_common as P
 
@@ -163,6 +163,29 @@ def gen_endings(rng, quick):
     return out
 
 
+def gen_reject_headers(rng, quick):
+    """rejections that choose response HEADERS (redirecting / captive-portal plugins), several connections in a row served by
+    this one process: same status, reason, body and header NAMES, a different header VALUE per connection - each client
+    must receive exactly the response ITS rejection chose (round-4 seed C09-r4-1: packets cached under a key without the
+    values).  Oracle only (the Coq model's AReject has no headers)."""
+    out = []
+    for j in range(6 if quick else 60):
+        hook = rng.choice(['buc', 'hcr'])
+        status, reason, body = rng.choice([(302, b'Found', None), (307, b'Temporary Redirect', b''), (403, b'Forbidden', b'blocked')])
+        group = []
+        for n in range(3):
+            hdrs = [[b'Location', b'http://portal.example/r/%d/%d' % (j, n)], [b'X-Rule', b'rule-%d' % rng.randrange(10 ** 6)]]
+            names = P.pick_names(rng, 2)
+            tables = [P.mk_table(1, name=names[0]), P.mk_table(2, name=names[1], **{hook: ['rejecth', status, reason, body, hdrs]})]
+            spec = P.mk_request(rng, method=rng.choice([b'GET', b'POST']))
+            c = dict(kind='run', basic_auth=None, tables=tables, disable=[], steps=[P.first_step(rng, spec, True)],
+                     end='client_eof', shutdown_error=None)
+            c['prelude'] = [dict(x, prelude=[]) for x in group]
+            group.append(c)
+            out.append(c)
+    return out
+
+
 def gen_threaded(rng, quick):
     """threaded mode (the handler owns a selector): shutdown() finds output pending and runs _flush() first; the client
     socket accepts it / short-writes / raises BrokenPipeError / ConnectionResetError / EIO during that flush.  The
@@ -287,13 +310,15 @@ def gen_order(rng, quick):
 
 def generate(rng, tier):
     quick = tier != 'thorough'
-    return gen_runs(rng, quick) + gen_endings(rng, quick) + gen_threaded(rng, quick) + gen_same_segment(rng, quick) + gen_permutations(rng, quick) + gen_exhaustive(rng, quick) + gen_nofirst(rng, quick) + gen_order(rng, quick)
+    return gen_runs(rng, quick) + gen_endings(rng, quick) + gen_reject_headers(rng, quick) + gen_threaded(rng, quick) + gen_same_segment(rng, quick) + gen_permutations(rng, quick) + gen_exhaustive(rng, quick) + gen_nofirst(rng, quick) + gen_order(rng, quick)
 
 
 # ------------------------------------------------------------------ implementation
 def run_impl(case):
     k = case['kind']
     if k == 'run':
+        for pc in case.get('prelude', []):          # earlier connections served by the same process (history of the case)
+            P.run_connection(pc)
         return P.run_connection(case)
     if k == 'nofirst':
         c = dict(case, steps=[['client', case['partial'], None]])
@@ -305,8 +330,14 @@ def run_impl(case):
     raise ValueError(k)
 
 
+def has_rejecth(case):
+    return 'rejecth' in json.dumps(C.jsonable(case.get('tables', [])))
+
+
 def coq_term(case, out):
     k = case['kind']
+    if has_rejecth(case):
+        return None           # header-carrying rejections are outside the model: oracle only
     if k == 'run':
         return P.coq_run_term(case, out)
     if k == 'nofirst':
@@ -456,6 +487,10 @@ def oracle(case, out):
                     return 'rejection by plugin %d: response %r is not the chosen one (%r %r %r)' % (log[last][1], nxt[0][1][:80], status, reason, body)
                 if hs.get(b'connection', b'').lower() != b'close':
                     return 'rejection response lacks Connection: close'
+                for hk, hv in (r[5] if len(r) > 5 and r[5] else {}).items():
+                    if hs.get(bytes(hk).lower()) != bytes(hv):
+                        return ('rejection by plugin %d: the response carries %s: %r, the plugin chose %r (exactly its chosen response '
+                                'must be sent)' % (log[last][1], bytes(hk).decode('latin-1'), hs.get(bytes(hk).lower()), bytes(hv)))
                 nxt = nxt[1:]
             if not nxt or nxt[0][0] != 'teardown':
                 return 'rejection by plugin %d not followed by teardown' % log[last][1]
